@@ -52,7 +52,17 @@ class NSpace(object):
     model_eq = True
 
     def __init__(self, shape, dt='float64', weight=None, exponent=2,
-                 name=None, cell_volume=None):
+                 name=None, cell_volume=None, cell_sides=None):
+        # `cell_sides` not None: a uniformly discretized space (isinstance
+        # DiscretizedSpace) with these symbolic cell sides
+        self.cell_sides = cell_sides
+        if cell_sides is not None:
+            self.isinstance_names = ('DiscretizedSpace',) + \
+                NSpace.isinstance_names
+            if cell_volume is None:
+                cell_volume = Rat.const(1)
+                for h in cell_sides:
+                    cell_volume = cell_volume * to_rat(h)
         # `cell_volume` not None: a DiscretizedSpace-like space exposing
         # that attribute (default weighting there: weight == cell_volume)
         self.cell_volume = cell_volume
@@ -79,7 +89,7 @@ class NSpace(object):
         if key not in self._twins:
             t = NSpace(self.shape, 'float64' if real else 'complex128',
                        self.weight, self.exponent, self.name,
-                       self.cell_volume)
+                       self.cell_volume, self.cell_sides)
             t._twins['C' if real else 'R'] = self
             self._twins[key] = t
         return self._twins[key]
@@ -483,12 +493,17 @@ class SMHooks(NAHooks, OpHooks):
                     return sp.twin(False)
                 raise Undecided('astype(%r)' % (dt,))
             return Builtin('astype', astype)
+        if name == 'element_type':
+            from .symex import ClassV
+            return ClassV(I.model.get('NumpyTensor'))
         if name == 'impl':
             return 'numpy'
         if name == 'default_order':
             return 'C'
         if name == 'cell_volume' and sp.cell_volume is not None:
             return sp.cell_volume
+        if name == 'cell_sides' and sp.cell_sides is not None:
+            return NA(objarr(list(sp.cell_sides)), 'float64')
         if name in ('cell_volume', 'partition', 'grid', 'cell_sides'):
             raise PyRaise('AttributeError')
         return NotImplemented
@@ -633,10 +648,24 @@ class SMHooks(NAHooks, OpHooks):
     def on_subscript(self, interp, obj, idx):
         if isinstance(obj, NPElem):
             if isinstance(idx, int):
-                return obj.parts[idx]
+                try:
+                    return obj.parts[idx]
+                except IndexError:
+                    raise PyRaise('IndexError')
+            if isinstance(idx, slice):
+                # ProductSpaceElement.__getitem__: element of the sliced
+                # space sharing the parts
+                return NPElem(NPSpace(obj.space.parts[idx],
+                                      obj.space.weights[idx]),
+                              obj.parts[idx])
             raise Undecided('product element index %r' % (idx,))
         if isinstance(obj, NPSpace) and isinstance(idx, int):
-            return obj.parts[idx]
+            try:
+                return obj.parts[idx]
+            except IndexError:
+                raise PyRaise('IndexError')
+        if isinstance(obj, NPSpace) and isinstance(idx, slice):
+            return NPSpace(obj.parts[idx], obj.weights[idx])
         if isinstance(obj, NElem):
             r = NAHooks.on_subscript(self, interp, obj.data, idx)
             return r
@@ -677,6 +706,9 @@ class SMHooks(NAHooks, OpHooks):
             return lambda x: PA.abs_nf(to_rat(x), self.signs)
         if name == 'sqrt':
             return lambda x: PA.root(to_rat(x), 2, self.signs)
+        if name in ('isfinite', 'isnan', 'isinf'):
+            # entries and parameters of the model are finite numbers
+            return lambda x: name == 'isfinite'
         return NAHooks.atom1(self, name)
 
     def on_call(self, interp, f, args, kwargs, node):
@@ -699,12 +731,27 @@ class SMHooks(NAHooks, OpHooks):
             sp = list(args)
             if len(sp) == 2 and isinstance(sp[1], int):
                 sp = [sp[0]] * sp[1]
-            if kwargs.get('weighting') is not None or kwargs.get(
-                    'exponent') is not None:
-                raise Undecided('ProductSpace with explicit weighting')
+            if kwargs.get('exponent') is not None:
+                raise Undecided('ProductSpace with explicit exponent')
             if not all(isinstance(x, (NSpace, NPSpace)) for x in sp):
                 raise PyRaise('TypeError')
-            return NPSpace(sp)
+            w = kwargs.get('weighting')
+            if w is not None:
+                if isinstance(w, Rec):
+                    w = w.attrs.get('array', w.attrs.get('const'))
+                if isinstance(w, NA):
+                    w = list(w.a.ravel())
+                elif is_scalar(w):
+                    w = [w] * len(sp)
+                else:
+                    w = list(interp.seq(w))
+                if len(w) != len(sp):
+                    raise PyRaise('ValueError')
+            return NPSpace(sp, w)
+        if isinstance(f, ClassV) and f.ci.name in ('ComplexNumbers',
+                                                   'RealNumbers') \
+                and not args and not kwargs:
+            return NField('C' if f.ci.name == 'ComplexNumbers' else 'R')
         if isinstance(f, ClassV) and f.ci.name == 'COOMatrix':
             data, (row, col), shape = args[0], args[1], args[2]
             from .symex import SArr
